@@ -3,10 +3,12 @@
 set -u
 export CARGO_NET_OFFLINE=true
 export PYO3_PYTHON="$(readlink -f "$(command -v python3-vt)")"
-cd /repo || exit 2
-if ! CARGO_TARGET_DIR=/verif/.build/pyext cargo build -p bourse --release --offline -q 2> /verif/.build/pyext-build.log; then
-  echo "MACHINERY-ERROR: the Python extension does not build (see /verif/.build/pyext-build.log)" >&2
-  tail -20 /verif/.build/pyext-build.log >&2
+REPO="${VERIF_REPO:-/repo}"
+BUILD="${VERIF_BUILD:-/verif/.build}"
+cd "$REPO" || exit 2
+if ! CARGO_TARGET_DIR="$BUILD/pyext" cargo build -p bourse --release --offline -q 2> "$BUILD/pyext-build.log"; then
+  echo "MACHINERY-ERROR: the Python extension does not build (see $BUILD/pyext-build.log)" >&2
+  tail -20 "$BUILD/pyext-build.log" >&2
   exit 2
 fi
 exit 0
